@@ -289,3 +289,111 @@ func ProbeNewAPI(every int) string {
 	}
 	return ""
 }
+
+// ProbeFollowUps is the "history" part of the probe: an object on which a new method was called is then put through every
+// sequence of up to three KNOWN operations, side by side with a twin - a fresh object decoded from the encoding the object showed
+// right after the new call, which never met the new method. Whatever the new method is meant to do, from that point on both hold
+// the same value and the known operations must treat them alike (Encode after every step; Bits for scalars). It returns a
+// description of the first difference, or "".
+func ProbeFollowUps() string {
+	elem, scal := NewMethods()
+	callNew := func(recv any, m reflect.Method, variant int) bool {
+		args, _, _, ok := probeArgs(m, variant)
+		if !ok {
+			return false
+		}
+		func() {
+			defer func() { _ = recover() }()
+			m.Func.Call(append([]reflect.Value{reflect.ValueOf(recv)}, args...))
+		}()
+		return true
+	}
+	g, seven, big1 := secp256k1.Base(), secp256k1.NewScalar().SetUInt64(7), secp256k1.NewScalar().MinusOne()
+	eops := []struct {
+		name string
+		f    func(e *secp256k1.Element) *secp256k1.Element
+	}{
+		{"Negate", func(e *secp256k1.Element) *secp256k1.Element { return e.Negate() }},
+		{"Double", func(e *secp256k1.Element) *secp256k1.Element { return e.Double() }},
+		{"Add(G)", func(e *secp256k1.Element) *secp256k1.Element { return e.Add(g) }},
+		{"Subtract(G)", func(e *secp256k1.Element) *secp256k1.Element { return e.Subtract(g) }},
+		{"Multiply(7)", func(e *secp256k1.Element) *secp256k1.Element { return e.Multiply(seven) }},
+		{"Multiply(n-1)", func(e *secp256k1.Element) *secp256k1.Element { return e.Multiply(big1) }},
+		{"Copy", func(e *secp256k1.Element) *secp256k1.Element { return e.Copy() }},
+		{"value-copy", func(e *secp256k1.Element) *secp256k1.Element { c := *e; return &c }},
+		{"Add(self)", func(e *secp256k1.Element) *secp256k1.Element { return e.Add(e) }},
+	}
+	one, three := secp256k1.NewScalar().One(), secp256k1.NewScalar().SetUInt64(3)
+	sops := []struct {
+		name string
+		f    func(s *secp256k1.Scalar) *secp256k1.Scalar
+	}{
+		{"Add(1)", func(s *secp256k1.Scalar) *secp256k1.Scalar { return s.Add(one) }},
+		{"Subtract(1)", func(s *secp256k1.Scalar) *secp256k1.Scalar { return s.Subtract(one) }},
+		{"Multiply(3)", func(s *secp256k1.Scalar) *secp256k1.Scalar { return s.Multiply(three) }},
+		{"Square", func(s *secp256k1.Scalar) *secp256k1.Scalar { return s.Square() }},
+		{"Invert", func(s *secp256k1.Scalar) *secp256k1.Scalar { return s.Invert() }},
+		{"Copy", func(s *secp256k1.Scalar) *secp256k1.Scalar { return s.Copy() }},
+		{"value-copy", func(s *secp256k1.Scalar) *secp256k1.Scalar { c := *s; return &c }},
+	}
+	seqs := func(n int) [][]int {
+		var out [][]int
+		for a := 0; a < n; a++ {
+			out = append(out, []int{a})
+			for b := 0; b < n; b++ {
+				out = append(out, []int{a, b})
+				for c := 0; c < n; c++ {
+					out = append(out, []int{a, b, c})
+				}
+			}
+		}
+		return out
+	}
+	for _, m := range elem {
+		for v, mk := range []func() *secp256k1.Element{secp256k1.NewElement, secp256k1.Base, func() *secp256k1.Element { return secp256k1.Base().Double() },
+			func() *secp256k1.Element { return secp256k1.Base().Double().Add(secp256k1.Base()) }} {
+			for _, seq := range seqs(len(eops)) {
+				e := mk()
+				if !callNew(e, m, v) {
+					break
+				}
+				twin := secp256k1.NewElement()
+				if err := twin.Decode(e.Encode()); err != nil {
+					return fmt.Sprintf("after *Element.%s (variant %d) the receiver's encoding %x is rejected: %v", m.Name, v, e.Encode(), err)
+				}
+				hist := "*Element." + m.Name
+				for _, op := range seq {
+					e, twin = eops[op].f(e), eops[op].f(twin)
+					hist += ", " + eops[op].name
+					if a, b := e.Encode(), twin.Encode(); !bytes.Equal(a, b) {
+						return fmt.Sprintf("history [%s] (receiver variant %d): the object shows %x, an object that held the same value after the first call and went through the same known operations shows %x", hist, v, a, b)
+					}
+				}
+			}
+		}
+	}
+	for _, m := range scal {
+		for v, mk := range []func() *secp256k1.Scalar{secp256k1.NewScalar, func() *secp256k1.Scalar { return secp256k1.NewScalar().One() },
+			func() *secp256k1.Scalar { return secp256k1.NewScalar().SetUInt64(7) }, func() *secp256k1.Scalar { return secp256k1.NewScalar().MinusOne() }} {
+			for _, seq := range seqs(len(sops)) {
+				s := mk()
+				if !callNew(s, m, v) {
+					break
+				}
+				twin := secp256k1.NewScalar()
+				if err := twin.Decode(s.Encode()); err != nil {
+					return fmt.Sprintf("after *Scalar.%s (variant %d) the receiver's encoding %x is rejected: %v", m.Name, v, s.Encode(), err)
+				}
+				hist := "*Scalar." + m.Name
+				for _, op := range seq {
+					s, twin = sops[op].f(s), sops[op].f(twin)
+					hist += ", " + sops[op].name
+					if a, b := s.Encode(), twin.Encode(); !bytes.Equal(a, b) || s.Bits() != twin.Bits() {
+						return fmt.Sprintf("history [%s] (receiver variant %d): the object shows %x, an object that held the same value after the first call and went through the same known operations shows %x (or their Bits differ)", hist, v, a, b)
+					}
+				}
+			}
+		}
+	}
+	return ""
+}
